@@ -126,9 +126,14 @@ DataCuts(f, e) ==
   ELSE LET ds == Rd32(f, 4, e) IN { DataCut(f, e, k) : k \in 1..(IF ds < 14 THEN ds ELSE 14) }
 
 \* family: "bin_le" | "bin_be" | "pack" | "arc"
-Mutations(f, family) ==
-  LET e == IF family = "bin_be" \/ family = "pack" THEN "be" ELSE "le"
+EndianOf(family) == IF family = "bin_be" \/ family = "pack" THEN "be" ELSE "le"
+\* offsets of the 32-bit fields of a base image
+FieldsOf(f, family) ==
+  LET e == EndianOf(family)
       fields == IF family = "pack" THEN PackFields(f)
                 ELSE IF family = "arc" THEN BinFields(f, e) \cup ArcFields(f) ELSE BinFields(f, e)
-  IN UNION { FieldPatches(f, off, e) : off \in { x \in fields : x + 4 <= Len(f) } }
+  IN { x \in fields : x + 4 <= Len(f) }
+\* single-field boundary mutations at the given offsets
+MutationsAt(f, family, offs) == UNION { FieldPatches(f, off, EndianOf(family)) : off \in offs }
+Mutations(f, family) == MutationsAt(f, family, FieldsOf(f, family))
 =============================================================================
